@@ -5,6 +5,17 @@ import vlib
 from vlib import Infra, log
 
 
+_ALIAS_EVENTS = None
+def alias_events():
+    """action names of spec/api/Aliasing.tla"""
+    global _ALIAS_EVENTS
+    if _ALIAS_EVENTS is None:
+        import re
+        txt = open(os.path.join(vlib.VERIF, "spec/api/Aliasing.tla")).read()
+        txt = re.sub(r"\(\*.*?\*\)", "", txt, flags=re.S)
+        _ALIAS_EVENTS = set(re.findall(r'"([A-Za-z0-9_]+)"', txt))
+    return _ALIAS_EVENTS
+
 _STATIC_EVENTS = None
 def static_events():
     """action names of spec/api/StaticCtx.tla (the specification's list of calls enabled on secp256k1_context_static)"""
@@ -156,6 +167,10 @@ class Check:
                 sub = [r for r in recs if r["e"] in static_events()]
                 if sub:
                     self.replay(sub, variant, name + " [static context]", soft=soft, soft_trace=soft_trace, env={"VH_STATIC_CTX": "1"})
+                # ... and the actions of spec/api/Aliasing.tla with the output buffer aliased to an input buffer (same specified result)
+                sub = [dict(r, **{"in": dict(r.get("in", {}), alias=1)}) for r in recs if r["e"] in alias_events() and "alias" not in r.get("in", {})]
+                if sub and not self.violations:
+                    self.replay(sub, variant, name + " [output aliased to an input]", soft=soft, soft_trace=soft_trace, env={"VH_NO_EXTRA_PASSES": "1"})
 
     def static_discover(self, recs, variant, name):
         """development aid (never part of a registered command): which actions give identical results on the static context?"""
